@@ -244,12 +244,31 @@ def body_reads_every_path(eng, f: FuncInfo, body, cc, read_methods, reach) -> bo
                 if q.startswith("fcp.serde._decode"):
                     return True
         return False
-    for st in body:
-        if isinstance(st, (ast.If, ast.Try, ast.While, ast.For)):
-            # only unconditional statements count
-            continue
-        for c in ast.walk(st):
-            if isinstance(c, ast.Call) and call_reads(c):
-                # must not sit under a conditional expression
+    def stmt_reads(st) -> bool:
+        return any(isinstance(c, ast.Call) and call_reads(c) for c in ast.walk(st))
+
+    def always(stmts) -> Optional[bool]:
+        """True: every path through stmts reads; False: some path leaves/finishes without reading."""
+        for st in stmts:
+            if isinstance(st, ast.If):
+                if stmt_reads(ast.Expr(value=st.test)):
+                    return True
+                a = always(st.body)
+                b = always(st.orelse) if st.orelse else None
+                if a is True and b is True:
+                    return True
+                for br, res in ((st.body, a), (st.orelse, b)):
+                    if br and res is not True and isinstance(br[-1], (ast.Continue, ast.Break, ast.Return)):
+                        return False
+                continue
+            if isinstance(st, (ast.Continue, ast.Break, ast.Return)):
+                return stmt_reads(st) if isinstance(st, ast.Return) else False
+            if isinstance(st, (ast.For, ast.While, ast.Try, ast.With)):
+                if isinstance(st, ast.With) and always(st.body) is True:
+                    return True
+                continue
+            if stmt_reads(st):
                 return True
-    return False
+        return None
+
+    return always(body) is True
